@@ -68,7 +68,8 @@ void vec_znx_automorphism__c(const MODULE* module, const int64_t p, int64_t* res
     __CPROVER_requires(REQ_MODULE) __CPROVER_requires(REQ_SHAPE2) __CPROVER_requires(REQ_VROT && (p & 1) == 1 && AUT_REL(p, NN))
     __CPROVER_requires(__CPROVER_is_fresh(res, RES_BYTES)) __CPROVER_requires(REQ_A) __CPROVER_requires(REQ_GHOST)
     __CPROVER_assigns(__CPROVER_object_upto(res, RES_BYTES))
-    __CPROVER_ensures(RS == 0 || res[GL * res_sl + (GT & (NN - 1))] == SGNV(GT < NN || GL >= AS, A_AT_IDX(G))) /*@vec_automorphism_limb_is_a_of_X_p:C09,C08,C13,C15*/
+    __CPROVER_ensures(RS == 0 || GL >= AS || res[GL * res_sl + (GT & (NN - 1))] == SGNV(GT < NN, A_AT_IDX(G))) /*@vec_automorphism_limb_is_a_of_X_p:C09,C08,C13,C15*/
+    __CPROVER_ensures(RS == 0 || GL < AS || res[GL * res_sl + G] == 0) /*@vec_automorphism_zero_extension:C08*/
     __CPROVER_ensures(ENS_PAD) /*@vec_automorphism_padding:C08,C11,C18*/
     __CPROVER_ensures(ENS_TAIL) /*@vec_automorphism_tail:C08,C11,C18*/
 ;
